@@ -60,6 +60,6 @@ def schedule_from_model(eng, sc, model):
         if e.wval is not None and z3.is_true(model.eval(e.wguard, model_completion=True)):
             wv = str(model.eval(e.wval, model_completion=True))
         obj = e.obj if isinstance(e.obj, int) or e.obj is None else str(model.eval(e.obj, model_completion=True))
-        out.append((c, e.tid, eng.thread_names.get(e.tid, str(e.tid)), e.kind, e.label, obj, str(e.path), rv, wv))
+        out.append((c, e.tid, eng.thread_names.get(e.tid, str(e.tid)), e.kind, e.label + ("@site" if e.site else ""), obj, str(e.path), rv, wv))
     out.sort()
     return out
